@@ -22,6 +22,8 @@ class AckOracle:
         self.timely_checked = 0
         self.nexttx_checked = 0
         self.max_latency = 0.0
+        self.must_arm = []            # ack-eliciting (per harness/frames.py) new-largest packets of the running call
+        self.armed_checked = 0
         self.timers_honoured = True   # the scenario fires every timer exactly when get_timer() asks
 
     def _bad(self, kind, text):
@@ -45,9 +47,31 @@ class AckOracle:
             self.largest[k] = pn
         if not (first_time and ae and new_largest):
             return
+        # the connection must arm its ack timer for it (compared when receive_datagram returns)
+        self.must_arm.append((ep, epoch, sp, pn, [f.get("name") for f in fr][:3]))
         if sp == "A" and not (ep.conn._handshake_complete and self.timers_honoured):
             return                      # "once the handshake is complete"
         self.due.setdefault(k, []).append((pn, sim.now))
+
+    def after_api(self, sim, ep, name, args, kw, res):
+        """is_ack_eliciting as the connection recorded it (ack timer armed) against RFC 9002 section 2
+        applied by the harness to the plaintext frames: anything but ACK, PADDING, CONNECTION_CLOSE"""
+        if name != "receive_datagram":
+            return
+        todo, self.must_arm = self.must_arm, []
+        from aioquic import tls
+        ep_of = {"INITIAL": tls.Epoch.INITIAL, "HANDSHAKE": tls.Epoch.HANDSHAKE, "ZERO_RTT": tls.Epoch.ONE_RTT,
+                 "ONE_RTT": tls.Epoch.ONE_RTT}
+        for e, epoch, sp, pn, names in todo:
+            if e is not ep or self._closing(ep) or ep.terminated:
+                continue
+            space = ep.conn._spaces.get(ep_of[epoch])
+            if space is None or space.discarded or pn not in space.ack_queue:
+                continue                  # not recorded (space gone): nothing to acknowledge
+            self.armed_checked += 1
+            if space.ack_at is None:
+                self._bad("not-armed", f"{ep.name}: {epoch} packet {pn} carries {names} (ack-eliciting, highest number so far) "
+                                       f"and was recorded, but no acknowledgement is scheduled (ack_at is None)")
 
     def on_packet_built(self, sim, ep, epoch, pn, hdr, payload, outlen):
         sp = SPACE[epoch]
@@ -156,6 +180,65 @@ def inject_pn(sim, src, pn, ack_eliciting=True, epoch="ONE_RTT"):
     return ok
 
 
+STREAM_FRAMES = ["STREAM", "STREAM_FIN", "RESET_STREAM", "STOP_SENDING", "MAX_STREAM_DATA", "STREAM_DATA_BLOCKED"]
+
+
+def stream_frame(kind, sid, sent):
+    """one stream-addressed frame for stream `sid` on which the sender has sent `sent` bytes so far"""
+    if kind == "STREAM":
+        return F.enc_stream(sid, sent, b"xy")
+    if kind == "STREAM_FIN":
+        return F.enc_stream(sid, sent, b"", fin=True)
+    if kind == "RESET_STREAM":
+        return F.enc_reset_stream(sid, 7, sent)
+    if kind == "STOP_SENDING":
+        return F.enc_stop_sending(sid, 7)
+    if kind == "MAX_STREAM_DATA":
+        return F.enc_max_stream_data(sid, 1 << 20)
+    return F.put_varint(0x15) + F.put_varint(sid) + F.put_varint(1 << 20)     # STREAM_DATA_BLOCKED
+
+
+def settle_streams(sim, orc):
+    """deliver everything in order, timers honoured, until the network is quiet"""
+    for _ in range(60):
+        if sim.pending:
+            d = sim.pending.pop(0)
+            sim.now += 0.0005
+            sim.deliver(d)
+        else:
+            advance(sim, 0.03, orc)
+            if not sim.pending:
+                return
+
+
+def stream_lifecycles(sim, r, orc):
+    """streams in each state as seen by both endpoints; returns {state: (stream id, bytes the CLIENT sent,
+    bytes the SERVER sent)}"""
+    c, s = sim.client, sim.server
+    st = {}
+    # fully finished and discarded: request+FIN, response+FIN, everything acknowledged
+    sim.api(c, "send_stream_data", 0, b"req", end_stream=True); sim.transmit(c); settle_streams(sim, orc)
+    sim.api(s, "send_stream_data", 0, b"resp", end_stream=True); sim.transmit(s); settle_streams(sim, orc)
+    st["discarded"] = (0, 3, 4)
+    # open: data both ways, no FIN
+    sim.api(c, "send_stream_data", 4, b"abc"); sim.transmit(c); settle_streams(sim, orc)
+    sim.api(s, "send_stream_data", 4, b"de"); sim.transmit(s); settle_streams(sim, orc)
+    st["open"] = (4, 3, 2)
+    # half-closed: the client finished its half
+    sim.api(c, "send_stream_data", 8, b"half", end_stream=True); sim.transmit(c); settle_streams(sim, orc)
+    st["half_closed"] = (8, 4, 0)
+    # reset by the client after some data
+    sim.api(c, "send_stream_data", 12, b"zz"); sim.transmit(c); settle_streams(sim, orc)
+    sim.api(c, "reset_stream", 12, 9); sim.transmit(c); settle_streams(sim, orc)
+    st["reset"] = (12, 2, 0)
+    # a server-initiated stream, finished both ways and discarded
+    sim.api(s, "send_stream_data", 1, b"push", end_stream=True); sim.transmit(s); settle_streams(sim, orc)
+    sim.api(c, "send_stream_data", 1, b"ok", end_stream=True); sim.transmit(c); settle_streams(sim, orc)
+    st["discarded_peer_opened"] = (1, 2, 4)
+    st["never_opened"] = (20, 0, 0)
+    return st
+
+
 def run_scenario(seed, observe="server", mode="mixed", steps=120, monitors=()):
     """returns (sim, observer, oracle, stuck_report)"""
     from .impl_ack import AckObserver
@@ -177,6 +260,32 @@ def run_scenario(seed, observe="server", mode="mixed", steps=120, monitors=()):
     sim.fair_phase(max_steps=200, done=lambda: sim.client.conn._handshake_confirmed
                    and sim.server.conn._handshake_confirmed and not sim.pending)
     sid = {sim.client.name: 0, sim.server.name: 1}
+    if mode == "streams":
+        # every stream-addressed frame type x stream lifecycle state, alone in a packet that carries a
+        # new highest packet number; then virtual time runs to max_ack_delay with every timer honoured
+        st = stream_lifecycles(sim, r, orc)
+        combos = [(k, state) for state in st for k in STREAM_FRAMES]
+        r.shuffle(combos)
+        # frames for discarded streams are ignored by the receiver; the others may legitimately end
+        # the connection (the real peer object knows nothing of the injected frames), so they come last
+        combos.sort(key=lambda c: not c[1].startswith("discarded"))
+        for kind, state in combos[:steps or len(combos)]:
+            if ep.terminated or peer.terminated or AckOracle._closing(ep) or AckOracle._closing(peer):
+                break
+            sid, by_client, by_server = st[state]
+            sent = by_client if peer is sim.client else by_server
+            if state == "never_opened" and peer is sim.server:
+                sid = 21                                   # a stream only the injecting side may open
+            payload = stream_frame(kind, sid, sent)
+            pn = peer.conn._packet_number + r.choice([0, 0, 1])
+            inject.inject(sim, peer, payload, pn=pn)
+            peer.conn._packet_number = max(peer.conn._packet_number, pn + 1)
+            sim.log.append(f"inject {kind} on {state} stream {sid} pn {pn}")
+            if r.random() < (0.5 if state.startswith("discarded") else 0.85):
+                sim.pending.clear()
+            stuck += advance(sim, MAX_ACK_DELAY + 0.005, orc)
+            settle_streams(sim, orc)
+        return sim, obs, orc, stuck
     if mode == "train":
         # a dense train of ack-eliciting packets: inter-arrival gaps below the receiver's
         # ack delay (1 ms), lasting 2x-4x the advertised max_ack_delay (25 ms); the receiver
